@@ -102,6 +102,9 @@ def seeds(tier):
         S[f"{base}+{extra} atoms"] = (n0 + extra, list(e0))
     n0, e0 = S["prism"]
     S["prism+2 bonded pairs"] = (n0 + 4, list(e0) + [(n0, n0 + 1), (n0 + 2, n0 + 3)])
+    np_, ep = S["prism"]
+    nk, ek = S["K33"]
+    S["prism+K33+16 atoms"] = (np_ + nk + 16, list(ep) + [(a + np_, b + np_) for a, b in ek])
     # hetero cages/rings closed by bridging hydrogens
     S["heterocubane (LiH)4"] = S["cube"]
     hp = [(i, (i + 1) % 6) for i in range(6)] + [(6 + i, 6 + (i + 1) % 6) for i in range(6)] + [(i, i + 6) for i in range(6)]
@@ -583,10 +586,37 @@ def long_labelled_chain_jobs(tier):
     return jobs
 
 
+def long_chain_job(job):
+    """O-(C)n chain: the partition must be discrete (every atom is at a different distance from the oxygen), i.e.
+    refinement really ran to its fixpoint after ~n rounds; checked with own refinement round."""
+    from tucan.canonicalization import canonicalize_molecule
+    from tucan.io import graph_from_molfile_text
+
+    from .e1 import refine_once
+
+    n = job
+    cols = [("O", None, None)] + [C] * (n - 1)
+    edges = [(i, i + 1) for i in range(n - 1)]
+    xs = [i + 1 for i in range(n)]
+    gc = canonicalize_molecule(graph_from_molfile_text(G.render_v3000(n, cols, edges, xs)))
+    cls = [None] * n
+    for _, d in gc.nodes(data=True):
+        cls[int(round(d["x_coord"])) - 1] = d["partition"]
+    ok = refine_once(n, cols, cls, adj(n, edges))
+    return ok, len(set(cls))
+
+
 def chains_engine(rep, prop, tier):
     from .common import pmap
 
     props = frozenset([prop])
+    if prop == "C13":
+        for n, (ok, ncls) in pmap(long_chain_job, [2050] if tier == "quick" else [2050, 4100]):
+            rep.add(states=1, transitions=1, traces_validated_against_impl=1, long_chain_atoms=n, long_chain_classes=ncls)
+            if not ok:
+                rep.violation("C13|long-chain|equitable", {"kind": "c13-long-chain", "n": n,
+                                                           "summary": f"O-(C){n - 1} chain: partition with {ncls} classes is not equitable "
+                                                                      f"(refinement stopped before its fixpoint)"})
     seen = {}
     nchains = 0
     alljobs = chain_jobs(tier) + (long_labelled_chain_jobs(tier) if prop in ("C01", "C04", "C13") else [])
